@@ -951,7 +951,7 @@ class SP(Robot):
         return np.copy(self.lengths), bottom_plate_pos, top_plate_pos
 
     def _FKSolve(self, L : 'np.ndarray[float]', plate_pos : tm = None, 
-            protect : bool = False):
+            protect : bool = False, _fallback : bool = True):
         """
         Solve FK using an older version of python solver, no jacobian used.
         
@@ -990,15 +990,33 @@ class SP(Robot):
         nLens = self.getLens()
         for j in range(6):
             if abs(abs(L[j]) - abs(nLens[j])) > 0.00001 or not self.validate(True):
-                return self._FKRaphson(L, plate_pos, protect)
+                if not _fallback:
+                    #Raphson already failed and handed over to this solver: give up instead of handing back forever
+                    return self._FKGiveUp(plate_pos)
+                return self._FKRaphson(L, plate_pos, protect, _fallback = False)
         #If not "Protected" from recursion, call IK.
         if not protect:
             self.IK(protect = True)
         return plate_pos, sol
 
 
+    def _FKGiveUp(self, bottom_plate_pos : tm):
+        """
+        Both FK solvers failed: count the failure and return to the neutral pose above the given bottom plate.
+
+        Args:
+            bottom_plate_pos (tm): bottom plate transformation in space frame
+        Returns:
+            tm: bottom plate transform
+            tm: top plate transform
+        """
+        self.fail_count += 1
+        self.IK(top_plate_pos = (bottom_plate_pos @ self._nominal_plate_transform),
+                bottom_plate_pos = bottom_plate_pos, protect = True)
+        return self.getBottomT(), self.getTopT()
+
     def _FKRaphson(self, L : 'np.ndarray[float]', 
-            bottom_plate_pos : tm = None, protect : bool = False):
+            bottom_plate_pos : tm = None, protect : bool = False, _fallback : bool = True):
         """
         Solve FK using Newton Raphson method.
 
@@ -1077,7 +1095,10 @@ class SP(Robot):
             if self.debug:# pragma: no cover
                 disp("Raphson FK Failed due to: " + str(e))
             self.fail_count+=1
-            return self._FKSolve(L, bottom_plate_pos_backup, protect)
+            if not _fallback:
+                #The other solver already failed and handed over to this one
+                return self._FKGiveUp(bottom_plate_pos_backup)
+            return self._FKSolve(L, bottom_plate_pos_backup, protect, _fallback = False)
 
     """
     Validation and Corrective Action Helpers
